@@ -116,3 +116,166 @@ func Verif_C10_move() {
 		verifAssert(env.fired[0].val == want, "move: fires with the most recent value")
 	}
 }
+
+// H10c: a removed task never fires; setting the key again afterwards behaves
+// like a fresh set.
+func Verif_C10_remove() {
+	n := verifCase(verifParam("maxSlots")) + 1
+	I := time.Duration(verifParam("interval"))
+	env := verifNewWheel(n, I)
+	env.w.tickedPos = verifChoose("phase", n)
+	d1, steps1 := verifDelay("d1", n, I)
+	env.w.setTask(&timingEntry{baseEntry: baseEntry{delay: d1, key: "a"}, value: 1})
+	a := verifChoose("advance", verifParam("maxRev")*n)
+	verifAssume(a < steps1)
+	env.ticks(a)
+	env.w.removeTask("a")
+	again := verifChoose("setAgain", 2) == 1
+	steps2 := 0
+	if again {
+		var d2 time.Duration
+		d2, steps2 = verifDelay("d2", n, I)
+		env.w.setTask(&timingEntry{baseEntry: baseEntry{delay: d2, key: "a"}, value: 2})
+	}
+	env.ticks(verifParam("maxRev")*n + 2)
+	if !again {
+		verifAssert(len(env.fired) == 0, "remove: a removed task never fires")
+		verifReach("removed")
+		return
+	}
+	verifAssert(len(env.fired) == 1, "remove+set: fires exactly once")
+	if len(env.fired) == 1 {
+		verifAssert(env.fired[0].tick == a+steps2, "remove+set: fires d2/I ticks after the new set")
+		verifAssert(env.fired[0].val == 2, "remove+set: fires with the new value")
+		verifReach("removed-set-again")
+	}
+}
+
+// H10d: two keys; Drain hands every still-pending task exactly once to the
+// drain function, and none of them fires later.
+func Verif_C10_drain() {
+	c := verifCase(verifParam("maxSlots") * 4) // (slots-1, pre-drain op)
+	n := c/4 + 1
+	I := time.Duration(verifParam("interval"))
+	env := verifNewWheel(n, I)
+	env.w.tickedPos = verifChoose("phase", n)
+	d1, steps1 := verifDelay("d1", n, I)
+	d2, steps2 := verifDelay("d2", n, I)
+	env.w.setTask(&timingEntry{baseEntry: baseEntry{delay: d1, key: "a"}, value: 1})
+	env.w.setTask(&timingEntry{baseEntry: baseEntry{delay: d2, key: "b"}, value: 2})
+	a := verifChoose("advance", verifParam("maxRev")*n+1)
+	env.ticks(a)
+	firedA, firedB := env.firedCount("a"), env.firedCount("b")
+	verifAssert(firedA == verifIte(steps1 <= a, 1, 0), "drain: a fired before the drain iff its tick has passed")
+	verifAssert(firedB == verifIte(steps2 <= a, 1, 0), "drain: b fired before the drain iff its tick has passed")
+	// optionally remove a / move b / re-set b right before the drain (moved
+	// and removed entries leave tombstones in the slots)
+	op := c % 4
+	wantA, wantB, valB := 1-firedA, 1-firedB, 2
+	switch op {
+	case 1:
+		env.w.removeTask("a")
+		wantA = 0
+	case 2:
+		d3, _ := verifDelay("d3", n, I)
+		env.w.moveTask(baseEntry{delay: d3, key: "b"})
+	case 3:
+		d3, _ := verifDelay("d3", n, I)
+		env.w.setTask(&timingEntry{baseEntry: baseEntry{delay: d3, key: "b"}, value: 3})
+		wantB, valB = 1, 3
+	}
+	var drained []verifFire
+	env.w.drainAll(func(k, v any) { drained = append(drained, verifFire{k, v, 0}) })
+	verifYield()
+	da, db := 0, 0
+	for _, f := range drained {
+		if f.key == "a" {
+			da++
+			verifAssert(f.val == 1, "drain: a drained with its value")
+		}
+		if f.key == "b" {
+			db++
+			verifAssert(f.val == valB, "drain: b drained with its most recent value")
+		}
+	}
+	verifAssert(da == wantA, "drain: a is handed over exactly once iff it is still pending (not fired, not removed)")
+	verifAssert(db == wantB, "drain: b is handed over exactly once iff it is still pending")
+	env.ticks(verifParam("maxRev")*n + 2)
+	verifAssert(env.firedCount("a") == firedA && env.firedCount("b") == firedB, "drain: nothing fires after the drain")
+	verifReach("drained")
+}
+
+// two independent keys: each fires exactly once at its own tick.
+func Verif_C10_twokeys() {
+	n := verifCase(verifParam("maxSlots")) + 1
+	I := time.Duration(verifParam("interval"))
+	env := verifNewWheel(n, I)
+	env.w.tickedPos = verifChoose("phase", n)
+	d1, steps1 := verifDelay("d1", n, I)
+	env.w.setTask(&timingEntry{baseEntry: baseEntry{delay: d1, key: "a"}, value: 1})
+	a := verifChoose("advance", 2)
+	env.ticks(a)
+	d2, steps2 := verifDelay("d2", n, I)
+	env.w.setTask(&timingEntry{baseEntry: baseEntry{delay: d2, key: "b"}, value: 2})
+	env.ticks(verifParam("maxRev")*n + 2)
+	verifAssert(len(env.fired) == 2, "two keys: both fire, each exactly once")
+	for _, f := range env.fired {
+		if f.key == "a" {
+			verifAssert(f.tick == steps1 && f.val == 1, "two keys: a fires at its tick with its value")
+		} else {
+			verifAssert(f.key == "b" && f.tick == a+steps2 && f.val == 2, "two keys: b fires at its tick with its value")
+		}
+	}
+	verifReach("both")
+}
+
+// ---- H10e: the public API through the real run loop and channels ----
+
+type verifTicker struct{ c chan time.Time }
+
+func (t *verifTicker) Chan() <-chan time.Time { return t.c }
+func (t *verifTicker) Stop()                  {}
+
+func Verif_C10_api() {
+	n := verifParam("apiSlots")
+	I := time.Duration(verifParam("interval"))
+	var fired []verifFire
+	tick := 0
+	tk := &verifTicker{c: make(chan time.Time)}
+	w, err := newTimingWheelWithClock(I, n, func(k, v any) { fired = append(fired, verifFire{k, v, tick}) }, tk)
+	verifAssert(err == nil && w != nil, "api: wheel is created")
+	doTick := func() {
+		tick++
+		tk.c <- time.Time{}
+		verifYield()
+	}
+	// invalid arguments: ErrArgument, no side effect
+	bad := time.Duration(verifInt64("bad"))
+	verifAssume(bad <= 0)
+	verifAssume(bad >= -1000)
+	verifAssert(w.SetTimer(nil, 1, I) == ErrArgument, "api: SetTimer(nil key) is ErrArgument")
+	verifAssert(w.SetTimer("x", 1, bad) == ErrArgument, "api: SetTimer(non-positive delay) is ErrArgument")
+	verifAssert(w.MoveTimer(nil, I) == ErrArgument, "api: MoveTimer(nil key) is ErrArgument")
+	verifAssert(w.MoveTimer("x", bad) == ErrArgument, "api: MoveTimer(non-positive delay) is ErrArgument")
+	verifAssert(w.RemoveTimer(nil) == ErrArgument, "api: RemoveTimer(nil key) is ErrArgument")
+	// a valid timer through the API
+	d, steps := verifDelay("d", n, I)
+	verifAssert(w.SetTimer("a", 7, d) == nil, "api: SetTimer succeeds")
+	verifYield()
+	total := verifParam("maxRev")*n + 2
+	for i := 0; i < total; i++ {
+		doTick()
+	}
+	verifAssert(len(fired) == 1, "api: exactly the valid timer fires, exactly once (invalid calls had no effect)")
+	if len(fired) == 1 {
+		verifAssert(fired[0].key == "a" && fired[0].val == 7 && fired[0].tick == steps, "api: fires at tick floor(d/I) with its value")
+	}
+	// after Stop every operation reports ErrClosed
+	w.Stop()
+	verifYield() // let the run loop observe the stop
+	verifAssert(w.SetTimer("b", 1, I) == ErrClosed, "api: SetTimer after Stop is ErrClosed")
+	verifAssert(w.MoveTimer("b", I) == ErrClosed, "api: MoveTimer after Stop is ErrClosed")
+	verifAssert(w.RemoveTimer("b") == ErrClosed, "api: RemoveTimer after Stop is ErrClosed")
+	verifAssert(w.Drain(func(k, v any) {}) == ErrClosed, "api: Drain after Stop is ErrClosed")
+	verifReach("stopped")
+}
